@@ -7,6 +7,13 @@ NOTES = ("Model-based verification with explicit TLA+ specifications (spec/*.tla
 
 CHECKS = [
     {
+        "property_id": "C08",
+        "design_ref": "DESIGN.md §4 C08",
+        "technique": "TLA+ model Propagation.tla (call-history state machine + RangeOps iteration contract + implementation-shaped KeplerNum/Ephem date models) enumerated by TLC; every history replayed on real orbits/propagators/ephemerides of 7 kinds",
+        "text": "TLC enumerates all single calls over a wide (start, span, step) grid and all histories of 2 (thorough: 3) calls on two orbits sharing one propagator instance; the spec supplies the exact date sequence each call must yield (DateRange contract) and refusal outside an ephemeris table; the replay checks, for SGP4, Kepler, J2, none, Clohessy-Wiltshire, KeplerNum and Ephem: exact dates in order and none beyond stop, each yielded state equal to a direct propagation from a fresh copy, initial orbit objects untouched, re-used listener objects giving the events of a fresh run.",
+        "level_note": "Bounded grids (5-9 starts, 7-13 spans, 4-6 steps; histories <= 2/3 calls). Numerical states compared to 3 cm / 0.1 mm/s (interpolation error), analytical to 1e-9 relative. KeplerNum replays are a seeded sample in the quick tier. Partially consumed generators interleaved with other calls are not demanded. Known findings: backward ranges (Ephem, KeplerNum), short spans, stop off the integration grid, explicit date lists for KeplerNum.",
+    },
+    {
         "property_id": "C03",
         "design_ref": "DESIGN.md §4 C03",
         "technique": "TLA+ models Dates.tla / DateRange.tla / Eop.tla checked exhaustively by TLC (exact integer tick arithmetic over IERS tables read independently); every reachable state/behaviour replayed on real Date, DateRange, EopDb",
@@ -24,5 +31,5 @@ CHECKS = [
 
 _PENDING = "check not built yet in this session (design in DESIGN.md §4); will be claimed once its TLA+ model and conformance harness exist"
 NOT_APPLICABLE = [
-    {"property_id": f"C{i:02d}", "reason": _PENDING} for i in range(1, 20) if i not in (3,)
+    {"property_id": f"C{i:02d}", "reason": _PENDING} for i in range(1, 20) if i not in (3, 8)
 ]
